@@ -594,6 +594,11 @@ where
 
     /// Gets an element at a given index, or `None` if `idx` is out-of-bounds.
     pub fn get(&self, idx: usize) -> Option<&T> {
+        // The tree lookup only looks at the low bits of `idx`, so out-of-bounds indices must be
+        // ruled out first.
+        if idx >= self.length {
+            return None;
+        }
         self.root.as_ref().and_then(|r| r.get(self.height, idx))
     }
 
